@@ -66,19 +66,31 @@ fn listing(args: &[&str]) -> String {
         }
         text.push('\n');
     }
+    let res = assemble_text(&text);
+    let shown = if text.is_empty() { "-".to_string() } else { text.trim_end_matches('\n').replace('\n', "|") };
+    format!("fin={} offs={} {} text={}", fin as u8, if offs.is_empty() { "-".to_string() } else { offs.join(",") }, res, shown)
+}
+
+fn assemble_text(text: &str) -> String {
     let mut output = Vec::new();
-    let r = Ingest::new(&mut output).ingest("./listing.etk", &text);
-    let res = match r {
+    let r = Ingest::new(&mut output).ingest("./listing.etk", text);
+    match r {
         Ok(()) => format!("ok:{}", tohex(&output)),
         Err(e) => format!("err:{}", crate::asm::err_kind(&e)),
-    };
-    format!("fin={} offs={} {}", fin as u8, if offs.is_empty() { "-".to_string() } else { offs.join(",") }, res)
+    }
+}
+
+/// `listing_asm <hex of text>` : assemble a listing-shaped text given verbatim (C03: mutated lines).
+fn listing_asm(args: &[&str]) -> String {
+    let text = String::from_utf8(unhex(args[0])).expect("harness: text not utf8");
+    assemble_text(&text)
 }
 
 pub fn dispatch(cmd: &str, args: &[&str]) -> Option<String> {
     match cmd {
         "dis_hist" => Some(hist(args)),
         "dis_listing" => Some(listing(args)),
+        "listing_asm" => Some(listing_asm(args)),
         _ => None,
     }
 }
